@@ -22,6 +22,9 @@ pub struct SNet {
     relay_addr: SocketAddr,
     relay: Option<UdpSocket>,
     refuse: Arc<AtomicBool>,
+    /// "slow" mode: the server accepts the TCP connection and reads the UDP ASSOCIATE request but
+    /// holds its reply until released
+    hold: Arc<AtomicBool>,
     names: Vec<(String, &'static str)>,
     addrs: HashMap<&'static str, SocketAddr>,
     /// association socket address -> client source the relay attributes it to
@@ -41,6 +44,8 @@ impl SNet {
         let relay_addr = relay.local_addr().unwrap();
         let refuse = Arc::new(AtomicBool::new(false));
         let refuse2 = refuse.clone();
+        let hold = Arc::new(AtomicBool::new(false));
+        let hold2 = hold.clone();
         std::thread::spawn(move || {
             let mut keep: Vec<std::net::TcpStream> = Vec::new();
             for c in listener.incoming() {
@@ -63,6 +68,10 @@ impl SNet {
                 if c.read_exact(&mut r).is_err() {
                     continue;
                 }
+                let t_hold = Instant::now();
+                while hold2.load(Ordering::SeqCst) && t_hold.elapsed() < Duration::from_secs(20) {
+                    std::thread::sleep(Duration::from_micros(100));
+                }
                 if refuse2.load(Ordering::SeqCst) {
                     let _ = c.write_all(&[5, 1, 0, 1, 0, 0, 0, 0, 0, 0]); // general failure
                     continue;
@@ -83,7 +92,7 @@ impl SNet {
         addrs.insert("P2", "192.0.2.2:2000".parse().unwrap());
         addrs.insert("D", "192.0.2.53:53".parse().unwrap());
         let names = ["a", "b", "P1", "P2", "D"].iter().map(|n| (format!("\"{}\"", addrs[n]), quoted(n))).collect();
-        SNet { socks_addr, relay_addr, relay: Some(relay), refuse, names, addrs, src_of: HashMap::new(), addr_of: HashMap::new(), rx: 0 }
+        SNet { socks_addr, relay_addr, relay: Some(relay), refuse, hold, names, addrs, src_of: HashMap::new(), addr_of: HashMap::new(), rx: 0 }
     }
 
     fn rewrite(&self, line: String) -> String {
@@ -167,6 +176,8 @@ struct SRun<'a> {
     met: Arc<(AtomicU64, AtomicU64)>,
     lines: Vec<String>,
     live: HashSet<String>, // client sources with an association, as the hooks report
+    /// the left pipe is inside on_new_udp_connection (between AssocOpenStart and AssocOpen)
+    opening: bool,
     expect_rx: u64,
     client_got: HashSet<u64>,
     tick_seen: bool,
@@ -185,8 +196,16 @@ impl<'a> SRun<'a> {
             let l = self.net.rewrite(l);
             if let Ok(v) = serde_json::from_str::<Value>(&l) {
                 match field(&v, "ev") {
-                    "AssocOpen" if v["ok"] == true => {
-                        self.live.insert(field(&v, "s").to_string());
+                    "AssocOpenStart" => self.opening = true,
+                    "AssocOpen" => {
+                        if self.opening && v["ok"] == false && self.net.hold.load(Ordering::SeqCst) {
+                            // the held handshake was dropped by the expiry tick
+                            super::CANCELLED.fetch_add(1, Ordering::SeqCst);
+                        }
+                        self.opening = false;
+                        if v["ok"] == true {
+                            self.live.insert(field(&v, "s").to_string());
+                        }
                     }
                     "AssocRelease" | "AssocError" => {
                         let src = field(&v, "src").to_string();
@@ -232,7 +251,8 @@ impl<'a> SRun<'a> {
             tokio::task::yield_now().await;
             self.net.drain();
             let n = self.pump();
-            let left_busy = self.fut.is_some() && {
+            let held = self.opening && self.net.hold.load(Ordering::SeqCst);
+            let left_busy = self.fut.is_some() && !held && {
                 let g = self.world.lock().unwrap();
                 !g.inq.is_empty() || !g.src_waiting
             };
@@ -377,6 +397,20 @@ impl<'a> SRun<'a> {
                 ev(if want { "Refuse" } else { "Accept" }, String::new());
                 self.settle(None).await;
             }
+            Op::Hold | Op::Release => {
+                let want = matches!(op, Op::Hold);
+                if self.net.hold.load(Ordering::SeqCst) == want {
+                    self.skipped += 1;
+                    return;
+                }
+                self.net.hold.store(want, Ordering::SeqCst);
+                ev(if want { "Hold" } else { "Release" }, String::new());
+                if !want {
+                    // the server thread answers (or finds the connection gone) in real time
+                    std::thread::sleep(Duration::from_millis(1));
+                }
+                self.settle(None).await;
+            }
             Op::Stall | Op::Resume => {
                 let want = matches!(op, Op::Stall);
                 if self.world.lock().unwrap().stalled == want {
@@ -388,7 +422,7 @@ impl<'a> SRun<'a> {
                 self.settle(None).await;
             }
         }
-        if self.fut.is_some() {
+        if self.fut.is_some() && !(self.opening && self.net.hold.load(Ordering::SeqCst)) {
             self.obs();
         }
     }
@@ -399,6 +433,7 @@ pub async fn run_one(net: &mut SNet, ops: &[Op]) -> Outcome {
     net.set_up();
     net.drain();
     net.refuse.store(false, Ordering::SeqCst);
+    net.hold.store(false, Ordering::SeqCst);
     net.src_of.clear();
     net.addr_of.clear();
     net.rx = 0;
@@ -430,6 +465,7 @@ pub async fn run_one(net: &mut SNet, ops: &[Op]) -> Outcome {
         met,
         lines: Vec::new(),
         live: HashSet::new(),
+        opening: false,
         expect_rx: 0,
         client_got: HashSet::new(),
         tick_seen: false,
@@ -446,6 +482,9 @@ pub async fn run_one(net: &mut SNet, ops: &[Op]) -> Outcome {
         if run.fut.is_none() {
             break;
         }
+    }
+    if run.fut.is_some() && run.net.hold.load(Ordering::SeqCst) {
+        run.apply(&Op::Release).await;
     }
     if run.fut.is_some() {
         ev("Close", String::new());
@@ -480,6 +519,17 @@ pub async fn run_one(net: &mut SNet, ops: &[Op]) -> Outcome {
     drop(run);
     verif::stop_recording();
     Outcome { lines: merge_adv(lines), problems, skipped, early_return: early }
+}
+
+/// Directed histories that are always run first: the SOCKS5 handshake of a fresh association is
+/// held while the expiry tick fires (the tick drops the left pipe inside on_new_udp_connection),
+/// then released, then the same pair is used again
+pub fn directed() -> Vec<Vec<Op>> {
+    vec![
+        vec![Op::Hold, Op::D(1), Op::Tick, Op::Release, Op::D(1), Op::R(1), Op::D(2)],
+        vec![Op::D(4), Op::Hold, Op::B(3, 1), Op::Tick, Op::Tick, Op::Release, Op::D(3), Op::R(3), Op::D(1), Op::R(4)],
+        vec![Op::Hold, Op::D(2), Op::Release, Op::D(2), Op::Tick, Op::Hold, Op::D(4), Op::Tick, Op::Release, Op::D(4), Op::D(2)],
+    ]
 }
 
 pub fn random_ops(rng: &mut StdRng) -> Vec<Op> {
@@ -552,6 +602,18 @@ pub fn random_ops(rng: &mut StdRng) -> Vec<Op> {
                 ops.push(Op::Up("relay"));
                 ops.push(Op::R(f));
                 ops.push(Op::D(f));
+            }
+            24 => {
+                // the handshake of a fresh association is held across one or more expiry ticks
+                let f = flow(rng);
+                ops.push(Op::Hold);
+                ops.push(Op::D(f));
+                for _ in 0..rng.gen_range(0..3) {
+                    ops.push(Op::Tick);
+                }
+                ops.push(Op::Release);
+                ops.push(Op::D(f));
+                ops.push(Op::R(f));
             }
             23 => {
                 ops.push(Op::Refuse);
